@@ -210,15 +210,14 @@ func c09Check(c *C09Case) (ds []ev.Discrepancy, stats map[string]int) {
 	var probes []probe
 	for _, sp := range bufR.Spans {
 		e := &bufJ.Entries[sp.Entry]
+		_ = e
 		switch sp.Kind {
 		case "account":
-			if e.Tx != nil { // the cursor is placed on posting accounts (what the server resolves a target from)
-				probes = append(probes, probe{"account", sp.Text, tab.accounts[sp.Text], sp})
-			}
-		case "commodity":
-			if e.Tx != nil {
-				probes = append(probes, probe{"commodity", stripQuotes(sp.Text), tab.commodities[stripQuotes(sp.Text)], sp})
-			}
+			// the cursor on any occurrence: posting accounts and account directives
+			probes = append(probes, probe{"account", sp.Text, tab.accounts[sp.Text], sp})
+		case "commodity", "cost.commodity", "assert.commodity", "price.commodity", "fmt.commodity":
+			// ... amounts, costs, assertions, commodity / P / D directives and format subdirectives
+			probes = append(probes, probe{"commodity", stripQuotes(sp.Text), tab.commodities[stripQuotes(sp.Text)], sp})
 		case "payee", "description":
 			probes = append(probes, probe{"payee", sp.Text, tab.payees[sp.Text], sp})
 		}
